@@ -119,6 +119,16 @@ Theorem C14_bound_partial : forall ops k0 n k s,
     ticks s' = ticks s + xtks_all ops xs k.
 Proof. exact xpipeline_demand_run. Qed.
 
+(* exactly what the correspondence observes: `pipeline.take(k)` evaluated to the end costs the
+   demand of its k results - take reports the end without touching its input again *)
+Theorem C14_take_k : forall ops k0 n k s,
+  let xs := src_prefix k0 n in
+  k <= length (xouts_all ops xs) ->
+  exists fuel s',
+    drain fuel s (ISlice 0 (Some k) (xbuild_all ops (Src k0))) = (s', Ok (firstn k (xouts_all ops xs))) /\
+    pulls s' = pulls s + xneed_all ops xs k /\ ticks s' = ticks s + xtks_all ops xs k.
+Proof. exact take_k_drain. Qed.
+
 (* apart from where / skipWhile (whose demand is the position of the k-th hit) the demand of
    an operator is uniform in the data: k, k - 1, or n + k for skip n *)
 Theorem C14_need_uniform : forall o xs k,
